@@ -186,3 +186,85 @@ Example C02_ex_oracle_rejects :
   /\ valid_chb (mk (ems ++ psk) (blen (ems ++ psk))) = true /\ valid_chb (mk (psk ++ ems) (blen (ems ++ psk))) = false
   /\ valid_chb (mk [0; 43; 0; 3; 2; 3; 4] 7) = true /\ valid_chb (mk [0; 43; 0; 3; 3; 3; 4] 7) = false.
 Proof. vm_compute. repeat split; reflexivity. Qed.
+
+(* ======================================================================================================
+   No premise on the model's OUTPUT: a STATIC predicate on the spec (Model/PresetOk.v, Proofs/PresetOkP.v / PresetOkS.v /
+   PresetOkT.v / PresetOkC.v).  C02_valid_or_error starts from header fields and extension objects inside wf_specb; for a
+   hello that comes from a ClientHelloSpec through ApplyPreset (Model/Preset.v) that was a premise on what the model
+   produced.  [PresetOk.preset_ok sp snimax omit] is decidable from the spec alone (per extension: the value ApplyPreset will
+   leave is within wire limits and RFC minimum sizes whatever GREASE values, SNI name of at most snimax bytes, generated
+   key shares, GREASE-ECH draws and OmitEmptyPsk = omit the connection brings; globally: types pairwise distinct with the
+   GREASE extensions on their two distinct GREASE types, pre_shared_key last, <= 2 GREASE extensions, <= 1 session_ticket,
+   padding nil/Boring, maximal lengths + 516 bytes of Boring padding within the uint16 extensions length).
+   Config class: blen (hostnameInSNI ServerName) <= snimax and Config.OmitEmptyPsk = omit.
+   ====================================================================================================== *)
+From UV Require Model.Preset Model.ParrotSpec Model.Shuffle Model.PresetOk Gen.Parrots.
+From UV Require Proofs.PresetOkP Proofs.PresetOkS Proofs.PresetOkT Proofs.PresetOkC.
+
+(* every spec in the static class, every Config in the class, every randomness: what ApplyPreset leaves is inside the
+   precondition, fits, and marshals to a valid ClientHello *)
+Theorem C02_preset_ok_output : forall sp c fr snimax omit h es,
+  PresetOk.preset_ok sp snimax omit = true -> PresetOk.cfg_in_class c snimax omit ->
+  Preset.apply_preset sp c fr = Ok (h, es) ->
+  wf_specb h es = true /\ spec_fitsb 0%Z h es = true /\ forallb WriteToUConn.typed_ext es = true
+  /\ existsb Preset.pad_other es = false.
+Proof. exact PresetOkP.preset_ok_output. Qed.
+Print Assumptions C02_preset_ok_output.
+
+Theorem C02_preset_ok_valid : forall sp c fr snimax omit h es,
+  PresetOk.preset_ok sp snimax omit = true -> PresetOk.cfg_in_class c snimax omit ->
+  Preset.apply_preset sp c fr = Ok (h, es) ->
+  exists raw, Preset.build sp c fr = Ok raw /\ marshal_hello Preset.bbs512 0%Z h es = Ok raw /\ valid_ch raw.
+Proof. exact PresetOkP.preset_ok_builds. Qed.
+Print Assumptions C02_preset_ok_valid.
+
+(* ... and ApplyPreset itself fails for such a spec only for its version bounds or for randomness that does not have the
+   shape of the code's draws (short reads); it never panics *)
+Theorem C02_preset_ok_failures : forall sp c fr snimax omit,
+  PresetOk.preset_ok sp snimax omit = true -> PresetOk.cfg_in_class c snimax omit ->
+  match Preset.apply_preset sp c fr with
+  | Ok _ => True
+  | Err e => In e PresetOkT.allowed_errors
+  | Panic _ => False
+  end.
+Proof. exact PresetOkT.preset_ok_failures. Qed.
+Print Assumptions C02_preset_ok_failures.
+
+(* the predicate survives everything the Chrome extension shuffle can do *)
+Theorem C02_preset_ok_shuffle : forall sp snimax omit swaps exts',
+  PresetOk.preset_ok sp snimax omit = true -> Shuffle.shuffle ParrotSpec.fixedb swaps (Preset.sp_exts sp) = Ok exts' ->
+  PresetOk.preset_ok (PresetOk.with_exts sp exts') snimax omit = true.
+Proof. exact PresetOkS.preset_ok_shuffle. Qed.
+Print Assumptions C02_preset_ok_shuffle.
+
+(* the regenerated table: all 38 parrots are in the class for SNI names up to 255 bytes with OmitEmptyPsk; without
+   OmitEmptyPsk all but the four *_PSK parrots (their hello cannot be built without a session: ErrEmptyPsk) *)
+Theorem C02_parrots_preset_ok : forallb (fun p => PresetOk.preset_ok (Preset.p_spec p) 255 true) Parrots.all = true.
+Proof. exact PresetOkS.parrots_preset_ok. Qed.
+Theorem C02_parrots_preset_ok_no_omit :
+  forallb (fun p => PresetOk.preset_ok (Preset.p_spec p) 255 false || PresetOkS.has_psk p) Parrots.all = true
+  /\ map Preset.p_name (filter PresetOkS.has_psk Parrots.all)
+     = map Preset.p_name [Parrots.p_Chrome_100_PSK; Parrots.p_Chrome_112_PSK_Shuf; Parrots.p_Chrome_114_Padding_PSK_Shuf; Parrots.p_Chrome_115_PQ_PSK].
+Proof. exact PresetOkS.parrots_preset_ok_no_omit. Qed.
+
+(* END TO END: every shipped parrot, every rearrangement the shuffle can produce (swaps = [] for the ids that do not
+   shuffle), every Config in the class, every randomness for which ApplyPreset returns: the hello is built and is a
+   valid ClientHello *)
+Theorem C02_parrots_valid : forall p swaps exts', In p Parrots.all ->
+  Shuffle.shuffle ParrotSpec.fixedb swaps (Preset.sp_exts (Preset.p_spec p)) = Ok exts' ->
+  forall c fr h es, PresetOkC.parrot_class c ->
+  Preset.apply_preset (PresetOk.with_exts (Preset.p_spec p) exts') c fr = Ok (h, es) ->
+  exists raw, Preset.build (PresetOk.with_exts (Preset.p_spec p) exts') c fr = Ok raw
+              /\ marshal_hello Preset.bbs512 0%Z h es = Ok raw /\ valid_ch raw.
+Proof. exact PresetOkC.parrot_valid. Qed.
+Print Assumptions C02_parrots_valid.
+
+(* non-vacuity: a Config in the class and randomness for which ApplyPreset returns (Chrome_133) *)
+Example C02_ex_parrot_premises :
+  PresetOkC.parrot_class ComposeW.ex_cfg
+  /\ is_ok (Preset.apply_preset (PresetOk.with_exts (Preset.p_spec Parrots.p_Chrome_133) (Preset.sp_exts (Preset.p_spec Parrots.p_Chrome_133)))
+                                ComposeW.ex_cfg ComposeW.ex_fresh) = true.
+Proof. split; [split; [vm_compute; discriminate | reflexivity] | vm_compute; reflexivity]. Qed.
+
+(* imported last, for the driver's closure scan only (lib/vcheck.py follows "Require Import" lines); nothing follows *)
+From UV Require Import Model.PresetOk Proofs.PresetOkP Proofs.PresetOkS Proofs.PresetOkT Proofs.PresetOkC.
